@@ -341,6 +341,9 @@ func (c *Cluster) finishUpdate(k *KindInfo, key Key, cur, next Obj, dry bool) (O
 	if reflect.DeepEqual(cur, next) {
 		return Copy(cur), nil
 	}
+	if fe := validateOwnerRefs(next); fe != nil {
+		return nil, c.invalid(k, key.Name, fe)
+	}
 	if c.Admit != nil {
 		if fe := c.Admit(k, cur, next); fe != nil {
 			return nil, c.invalid(k, key.Name, fe)
@@ -404,6 +407,9 @@ func (c *Cluster) Create(in Obj, dry bool) (Obj, error) {
 	o["apiVersion"] = k.GVK.GroupVersion().String()
 	if c.Default != nil {
 		c.Default(k, o)
+	}
+	if fe := validateOwnerRefs(o); fe != nil {
+		return nil, c.invalid(k, key.Name, fe)
 	}
 	if c.Admit != nil {
 		if fe := c.Admit(k, nil, o); fe != nil {
@@ -902,4 +908,19 @@ func OwnerRefs(o Obj) []metav1.OwnerReference {
 		out = append(out, r)
 	}
 	return out
+}
+
+// validateOwnerRefs mirrors the API server's metadata validation: at most one
+// owner reference may be the managing controller.
+func validateOwnerRefs(o Obj) *field.Error {
+	n := 0
+	for _, r := range OwnerRefs(o) {
+		if r.Controller != nil && *r.Controller {
+			n++
+		}
+	}
+	if n > 1 {
+		return field.Invalid(field.NewPath("metadata", "ownerReferences"), nil, "Only one reference can have Controller set to true")
+	}
+	return nil
 }
